@@ -2,19 +2,28 @@
 """brief for an independent 'breaker' sub-agent: gets only a property's text and a scratch worktree -- nothing from /verif"""
 import json, sys
 pid = sys.argv[1]
+rnd = int(sys.argv[2]) if len(sys.argv) > 2 else 1
+k1, k2 = 2 * rnd - 1, 2 * rnd
 prop = [json.loads(l) for l in open('/verif/properties.jsonl') if json.loads(l)['id'] == pid][0]
 keep = {k: prop[k] for k in ("id", "title", "statement", "quantifier", "why_tests_cant")}
 keep["anchors"] = {"files": prop["anchors"]["files"], "mechanism": prop["anchors"]["mechanism"], "observe_at": prop["anchors"].get("observe_at")}
+import glob, os
+tried = []
+if rnd > 1:
+    for m in sorted(glob.glob(f'/verif/seeded/{pid}-*/meta.json')):
+        tried.append("- " + json.load(open(m))["summary"][:400])
+tried_txt = ("\nChanges that were ALREADY tried by others (do something different: another function, another mechanism, another clause of the property, another type/configuration):\n" + "\n".join(tried) + "\n") if tried else ""
 print(f"""You are given a scratch git worktree of the Rust crate Ogeon/palette (a colour management library) at /tmp/mut/{pid} (workspace: palette, palette_derive, integration_tests, ...). Work ONLY inside /tmp/mut/{pid}; do not read or write /repo or /verif. No network: always pass `--offline` to cargo.
 
 A semantic property that the library is supposed to satisfy:
 {json.dumps(keep, indent=1)}
 
+{tried_txt}
 Your task: produce TWO different, realistic changes to the library source (each a small patch a careless or mistaken maintainer could plausibly commit — a refactor gone slightly wrong, an optimisation, an off-by-one, a dropped guard, a changed constant, a swapped branch, two sites that each look fine alone) such that EACH, applied on its own to the unchanged worktree,
   (1) still compiles (`cargo build --offline -p palette` with default features, and with `--features "random serializing wide bytemuck gamma_lut_u16"`),
   (2) still passes the ENTIRE existing test suite unedited: `cargo test --workspace --no-fail-fast --offline --lib --tests` (871 tests: 12+24+6+4+825) — run it and check the counts,
   (3) BREAKS the property above as stated (within the property's own input domain and tolerances — a real violation, not a rounding-level nit), and
   (4) needs something SPECIFIC to manifest: an unusual input, a particular configuration (type, RGB standard, white point, component type), a multi-step sequence of operations, a boundary value, or two cooperating sites — NOT something ordinary use or a casual spot check would expose at once. Prefer subtle over blatant; the two changes should break different clauses / mechanisms of the property.
 For each change also write a demonstration: a small Rust test file `tests/demo_<k>.rs` placed in /tmp/mut/{pid}/integration_tests/tests/ (it can `use palette::...`; check integration_tests/Cargo.toml for available features/deps — if you need a feature that crate does not enable, put the demo as a `#[cfg(test)]`-free example under palette/examples/ or as a doc-free test in palette/tests/ instead and say how to run it) that FAILS with the change applied and PASSES on the unchanged tree. Verify both directions yourself.
-Deliverables (write them to /tmp/mut/{pid}/_out/): for k = 1, 2: `patch_<k>.diff` (unified diff of the library change ONLY, produced with `git diff` against the unchanged tree, demo files excluded), `demo_<k>.rs` (the demonstration, plus a one-line comment at its top saying where to place it and the exact cargo command to run it), and `meta_<k>.json` with keys: property ("{pid}"), summary (what was changed), breaks (which clause of the property and why), needs (what specific input / configuration / sequence is required for the violation to show), witness (the concrete failing input and the wrong vs. right output), commands (what you ran to verify compile / full suite / demo fails with / demo passes without). Leave the worktree itself UNCHANGED at the end (`git checkout -- . && git clean -fd -e _out -e target`), so that only _out/ remains besides build output.
+Deliverables (write them to /tmp/mut/{pid}/_out/): for k = {k1}, {k2}: `patch_<k>.diff` (unified diff of the library change ONLY, produced with `git diff` against the unchanged tree, demo files excluded), `demo_<k>.rs` (the demonstration, plus a one-line comment at its top saying where to place it and the exact cargo command to run it), and `meta_<k>.json` with keys: property ("{pid}"), summary (what was changed), breaks (which clause of the property and why), needs (what specific input / configuration / sequence is required for the violation to show), witness (the concrete failing input and the wrong vs. right output), commands (what you ran to verify compile / full suite / demo fails with / demo passes without). Leave the worktree itself UNCHANGED at the end (`git checkout -- . && git clean -fd -e _out -e target`), so that only _out/ remains besides build output.
 Final message: a short summary of the two changes and confirmation of the four requirements for each.""")
